@@ -49,6 +49,10 @@ def cmd_replay(args):
     core.bootstrap()
     with open(args.path, encoding="utf-8") as fh:
         scn = json.load(fh)
+    envreq = scn.get("environment") or {}
+    if any(os.environ.get(k) != v for k, v in envreq.items()):
+        # the violation was found under a particular environment (e.g. DEBUG logging): replay it there
+        os.execve(sys.executable, [sys.executable] + sys.argv, dict(os.environ, VERIF_NO_REEXEC="1", PYTHONHASHSEED="0", **envreq))
     flags = scn.get("interpreter_flags") or []
     if "-O" in flags and not sys.flags.optimize:
         # the violation was found under `python -O`: replay it under the same interpreter flags
